@@ -413,6 +413,24 @@ Proof.
     apply set_dp_inv3; auto.
 Qed.
 
+(* the in-memory update of a bind: the image is unstamped until the checkpoint that follows stamps it *)
+Lemma upd_live_inv3 s i r r2 ls d :
+  inv1 s -> inv3 s -> aget i (live s) = Some r -> s_stamp r2 = None -> inv3 (upd_live s i r2 ls d).
+Proof.
+  intros I1 I3 L ST. d1 I1. d3 I3. constructor; cbn [upd_live store live pend tick applied completed]; auto.
+  - intros j r0 t. rewrite aget_aput. eqb_case j i; [intros H; inversion H; subst; congruence|eauto].
+  - intros tn rp rl t G. rewrite aget_aput. eqb_case (s_id rp) i; [intros H; inversion H; subst; congruence|eauto].
+  - intros tn rp rl t G. rewrite aget_aput. eqb_case (s_id rp) i; [intros H; inversion H; subst; congruence|eauto].
+  - intros j r0 t. rewrite aget_aput. eqb_case j i; [intros H; inversion H; subst; congruence|eauto].
+Qed.
+
+Lemma do_bind4_inv3 c s i l o s' out :
+  inv1 s -> inv3 s -> do_bind4 c s i l o = Some (s', out) -> inv3 s'.
+Proof.
+  intros I1 I3 H. apply do_bind4_shape in H. destruct H as [->|(r & a & ls & d & L & -> & _)]; auto.
+  apply do_ck_inv3; [eapply upd_live_inv1; eauto|eapply upd_live_inv3; eauto].
+Qed.
+
 Lemma step_inv13 c s o s' out :
   c_ordered c = true ->
   (inv1 s /\ inv4 s) /\ inv3 s -> step c s o = Some (s', out) -> (inv1 s' /\ inv4 s') /\ inv3 s'.
@@ -429,6 +447,7 @@ Proof.
   - inversion H. change s' with (fst (s', out)). rewrite <- H1. apply do_relf_inv3; auto.
   - inversion H. change s' with (fst (s', out)). rewrite <- H1. apply do_delretry_inv3; auto.
   - inversion H. change s' with (fst (s', out)). rewrite <- H1. apply do_giveup_inv3; auto.
+  - eapply do_bind4_inv3; eauto.
   - inversion H; subst; auto.
   - inversion H. change s' with (fst (s', out)). rewrite <- H1. apply do_crash_inv3; auto.
   - inversion H. change s' with (fst (s', out)). rewrite <- H1. apply do_relstop_inv3; auto.
@@ -588,6 +607,8 @@ Proof.
     apply (relf_pre_completed c s i x IN).
   - inversion H. change s' with (fst (s', out)). rewrite <- H1. unfold do_delretry. destruct (aget i (delpend s)) as [[|]|]; auto. destruct ok; auto.
   - inversion H. change s' with (fst (s', out)). rewrite <- H1. unfold do_giveup. destruct (aget i (delpend s)) as [[|]|]; auto. destruct (c_delforever c); auto.
+  - apply do_bind4_shape in H. destruct H as [->|(r & a & ls & d & L & -> & _)]; auto.
+    unfold do_ck. cbn [upd_live live]. rewrite aget_aput_eq. cbn [fst completed]. auto.
   - inversion H; subst; auto.
   - inversion H. change s' with (fst (s', out)). rewrite <- H1, do_crash_completed. auto.
   - inversion H. change s' with (fst (s', out)). rewrite <- H1, do_relstop_fst, do_crash_completed.
@@ -597,4 +618,20 @@ Proof.
     { destruct (putdone && c_ordered c); auto. destruct (first_of c s i (pend s)); auto.
       apply do_done_core_completed; auto. }
     destruct (match aget i (live s) with Some r => negb (s_swif r =? 0) | None => false end); auto.
+Qed.
+
+(* the real bind path issues the checkpoint: after a bind / renew (anything but the no-op cases: unknown session, PPPoE,
+   pool exhausted) the in-memory image carries a fresh stamp whose Put is pending with exactly that image *)
+Lemma bind4_checkpoints c s i l o s' out :
+  inv1 s -> do_bind4 c s i l o = Some (s', out) ->
+  s' = s \/
+  exists r', aget i (live s') = Some r' /\ s_stamp r' = Some (tick s) /\ s_bound r' = true /\ s_l4 r' = l /\
+             is_some (s_v4 r') = true /\ aget (tick s) (pend s') = Some r'.
+Proof.
+  intros I1 H. apply do_bind4_shape in H. destruct H as [->|(r & a & ls & d & L & -> & _)]; auto. right.
+  unfold do_ck. cbn [upd_live live]. rewrite aget_aput_eq. cbn [fst live pend tick]. rewrite aget_aput_eq.
+  eexists. split; [reflexivity|]. cbn [set_stamp set_bind4 s_stamp s_bound s_l4 s_v4 is_some].
+  repeat split; auto. rewrite aget_app. cbn [upd_live pend tick]. destruct (aget (tick s) (pend s)) eqn:P.
+  - apply (i_pend_tick s I1) in P. lia.
+  - cbn [aget]. rewrite N.eqb_refl. reflexivity.
 Qed.
